@@ -601,6 +601,10 @@ func init() {
 			keys = append(keys, k)
 		}
 		sort.Strings(keys)
+		// byte-level model of request.Decode (gen_bytes.go): 400 exactly when the body is undecodable
+		if err := bytesC20(o, e); err != nil {
+			return err
+		}
 		return writeJSON(o.out, "stats.json", map[string]any{
 			"product": nprod, "random": nrand, "content_types": len(c20CTs), "accepts": len(c20Accs), "bodies": bodies,
 			"status_histogram": hist, "by_body": byBody, "files": files, "samples": samples,
